@@ -1213,6 +1213,8 @@ class StmtMixin(object):
 
     def spec_is_none(self, node, st, acc):
         st, v = self.eval(node.args[0], st, acc)
+        if v.z is None:
+            return st, self.mk_bool(z3.BoolVal(False))      # a python-side value (function, class, tuple) is not None
         return st, self.mk_bool(self.u.is_none(v.z))
 
     def spec_at_enter(self, node, st, acc):
